@@ -80,13 +80,17 @@ def judge(spec, obs):
 def run(tier, seed, model):
     camp = common.Campaign()
     rng = random.Random(seed * 7919 + 11)
-    n = 12 if tier == "quick" else 120
+    n = 14 if tier == "quick" else 120
     specs = []
     for i in range(n):
-        kinds = ["one", "two", "refuse", "needpw", "mixed", "two", "one"]
+        kinds = ["one", "two", "refuse", "needpw", "mixed", "burst", "two", "one", "burst"]
         kind = kinds[i] if i < len(kinds) else rng.choice(kinds)
         clients = []
-        if kind == "one":
+        if kind == "burst":
+            # hundreds of fast calls back to back: a result that is ready before the caller starts to wait must not be lost
+            calls = [{"method": "probe", "args": [1000 + k], "sleep": 0, "exp": ["ret", 1000 + k], "async": 0} for k in range(400)]
+            clients.append({"id": 1, "server": "ok", "calls": calls})
+        elif kind == "one":
             clients.append({"id": 1, "server": rng.choice(["ok", "slow"]), "calls": gen_calls(rng, 100, rng.randrange(3, 14))})
         elif kind == "two":
             clients.append({"id": 1, "server": rng.choice(["ok", "slow"]), "calls": gen_calls(rng, 100, rng.randrange(3, 10))})
@@ -96,7 +100,7 @@ def run(tier, seed, model):
         else:
             clients.append({"id": 1, "server": "ok", "calls": gen_calls(rng, 100, rng.randrange(3, 8))})
             clients.append({"id": 2, "server": rng.choice(["refuse", "needpw"]), "calls": gen_calls(rng, 500, 3)})
-        specs.append({"repo": common.REPO, "harness": common.VERIF + "/harness", "clients": clients, "timeout": 6, "kind": kind})
+        specs.append({"repo": common.REPO, "harness": common.VERIF + "/harness", "clients": clients, "timeout": 4, "kind": kind})
     with ThreadPoolExecutor(max_workers=8) as ex:
         obs = list(ex.map(run_child, specs))
     reqs, meta = [], []
